@@ -715,7 +715,6 @@ fn random_case(ses: &mut Session, sut: &mut S, idx: usize, req: &[(u64, u32)], n
                 6 => Some(u),
                 _ => Some(*g.rng.pick(&users)),
             };
-            let r = rcpt.unwrap_or(u);
             let fault = g.rng.below(100);
             if fault < 72 {
                 // valid-ish: feed the recipient that is closest to completing (so that mints actually happen)
@@ -723,7 +722,8 @@ fn random_case(ses: &mut Session, sut: &mut S, idx: usize, req: &[(u64, u32)], n
                 g.rng.shuffle(&mut rs);
                 let progress = |v: &View, r: u64| -> u32 { v.req.iter().map(|(c, _)| *v.dep.get(&(r, *c)).unwrap_or(&0)).sum() };
                 if g.rng.chance(3, 4) {
-                    rs.sort_by_key(|r| std::cmp::Reverse(progress(&g.v, *r)));
+                    // recipients already at their limit last, then most progress first
+                    rs.sort_by_key(|r| (*g.v.cnt.get(r).unwrap_or(&0) >= g.v.limit, std::cmp::Reverse(progress(&g.v, *r))));
                 }
                 let r = rs[0];
                 let needed: Vec<u64> = g.v.req.iter().map(|(c, _)| *c).filter(|c| g.v.need(r, *c) > 0).collect();
@@ -835,11 +835,12 @@ fn random_case(ses: &mut Session, sut: &mut S, idx: usize, req: &[(u64, u32)], n
             let c = *g.rng.pick(&COLLS);
             if let Some(id) = g.v.tokens_of(u, c).first().cloned() {
                 let to = if g.rng.chance(1, 6) { SELF } else { *g.rng.pick(&users) };
-                let out = g.step(&format!("xfer caller={u} coll={c} id={id} to={to}"));
+                let caller = if g.rng.chance(1, 5) { *g.rng.pick(&users) } else { u };
+                let out = g.step(&format!("xfer caller={caller} coll={c} id={id} to={to}"));
                 if out.starts_with("ok") {
                     g.v.owner.insert((c, id), to);
                 }
-                g.ses.mark(format!("xfer:{}:{}", if to == SELF { "to-minter" } else { "to-user" }, &out[..2]));
+                g.ses.mark(format!("xfer:{}:{}:{}", if caller == u { "owner" } else { "other" }, if to == SELF { "to-minter" } else { "to-user" }, &out[..2]));
             }
         } else if roll < 94 {
             // approval, then the spender sends (credited to the spender unless a recipient is named)
@@ -1131,7 +1132,7 @@ fn main() {
         weird_case(&mut ses, &mut sut, i, v);
     }
     // 4. random scenarios over all 39 requirement vectors
-    let per_vector = ses.scale(8, 300);
+    let per_vector = ses.scale(20, 220);
     let n_ops = ses.scale(40, 60);
     let mut idx = 0;
     for _ in 0..per_vector {
